@@ -231,7 +231,10 @@ pub fn run_check(spec: CheckSpec, tier: &str, emit_findings: Option<&str>) -> i3
                 } else {
                     true
                 };
-                if !reproduced && v.kind != "nondeterministic" {
+                // C16 is about results that depend on what ran before in the process: such a
+                // violation need not show again in a fresh worker (that is the violation)
+                let history_kind = spec.id == "C16" && matches!(v.kind.as_str(), "depends_on_other_model" | "iteration_depends_on_history" | "tail_depends_on_history");
+                if !reproduced && v.kind != "nondeterministic" && !history_kind {
                     eprintln!("MACHINERY: violation did not reproduce in a fresh worker: {} {} {} :: {}", spec.id, v.kind, v.detail, job.program.text());
                     return 2;
                 }
